@@ -309,6 +309,38 @@ pub fn bounce_case(imp: &str, rt: &tokio::runtime::Runtime, compressed: bool) ->
     None
 }
 
+/// a handshake() in the middle of a session (InSim options are changed by sending IS_ISI again): the packets of a multi-packet datagram
+/// that were received but not yet read must still be delivered afterwards, and the ISI leaves as one datagram.
+pub fn handshake_mid_case(imp: &str, rt: &tokio::runtime::Runtime, compressed: bool) -> Option<String> {
+    use insim::{identifiers::RequestId, insim::Isi};
+    let (a, b) = pair();
+    b.set_read_timeout(Some(Duration::from_millis(300))).ok()?;
+    let frames: Vec<Vec<u8>> = (1..=5u8).map(|i| raw_frame(compressed, 3, i, &[3])).collect();
+    let dg: Vec<u8> = frames.concat();
+    let isi = Isi { reqi: RequestId(2), iname: "again".into(), ..Default::default() };
+    let want_isi = encode(compressed, &Packet::Isi(isi.clone()))?;
+    let fr = Frames::new(compressed, frames.clone()); let idx = RepIndex::new(&fr);
+    let mut got: Vec<String> = vec![];
+    let _g = rt.enter();
+    if imp == "B" {
+        a.set_read_timeout(Some(Duration::from_millis(400))).ok()?;
+        let mut f = BFramed::new(Box::new(BUdp::from(a)), Codec::new(mode_of(compressed)));
+        b.send(&dg).ok()?;
+        for step in 0..5 { if step == 2 { if guard(|| f.handshake(isi.clone())).map(|r| r.is_ok()) != Some(true) { return Some("handshake() in mid-session fails".into()); } }
+            match guard(|| f.read()) { Some(Ok(p)) => got.push(idx.token(&p)), Some(Err(e)) => { got.push(err_token(&e).0); break; }, None => { got.push("PANIC".into()); break; } } }
+    } else {
+        a.set_nonblocking(true).ok()?;
+        let mut f = AFramed::new(Box::new(AUdp::from(tokio::net::UdpSocket::from_std(a).ok()?)), Codec::new(mode_of(compressed)));
+        b.send(&dg).ok()?;
+        for step in 0..5 { if step == 2 { let ok = guard(|| rt.block_on(async { f.handshake(isi.clone(), Duration::from_secs(2)).await })).map(|r| r.is_ok()); if ok != Some(true) { return Some("handshake() in mid-session fails".into()); } }
+            match guard(|| rt.block_on(async { tokio::time::timeout(Duration::from_millis(600), f.read()).await })) { Some(Ok(Ok(p))) => got.push(idx.token(&p)), Some(Ok(Err(e))) => { got.push(err_token(&e).0); break; }, Some(Err(_)) => { got.push("STALLED".into()); break; }, None => { got.push("PANIC".into()); break; } } }
+    }
+    let want: Vec<String> = (0..5).map(|i| format!("P{i}")).collect();
+    if got != want { return Some(format!("one datagram of 5 packets, handshake() after the second read: the reads returned {:?}, expected {:?}", got, want)); }
+    let mut rb = [0u8; 2048];
+    match b.recv(&mut rb) { Ok(n) if rb[..n] == want_isi[..] => None, other => Some(format!("the peer did not receive the ISI as one datagram: {:?}", other.map(|n| hex(&rb[..n])))) }
+}
+
 fn write_case(imp: &str, rt: &tokio::runtime::Runtime, compressed: bool, packets: &[Packet]) -> (Vec<Vec<u8>>, Vec<Vec<u8>>) {
     let (a, b) = pair();
     b.set_nonblocking(true).unwrap();
@@ -347,6 +379,7 @@ pub fn run(a: &Args) {
             let want = adaptor_expect(&dgs, &used);
             if tr == want { println!("PASS"); std::process::exit(0) } else { println!("FAIL adaptor chunks differ from the datagram payloads\n got  {}\n want {}", &tr[..tr.len().min(300)], &want[..want.len().min(300)]); std::process::exit(1) }
         }
+        if let Some(rest) = r.strip_prefix("hsmid ") { let t: Vec<&str> = rest.split_whitespace().collect(); match handshake_mid_case(t[0], &rt, t[1] == "C") { Some(w) => { println!("FAIL [C08] {w}"); std::process::exit(1) }, None => { println!("PASS"); std::process::exit(0) } } }
         if let Some(rest) = r.strip_prefix("bounce ") { let t: Vec<&str> = rest.split_whitespace().collect(); let mut bad = None; for _ in 0..3 { if let Some(w) = bounce_case(t[0], &rt, t[1] == "C") { bad = Some(w); } } match bad { Some(w) => { println!("FAIL [C08] {w}"); std::process::exit(1) }, None => { println!("PASS"); std::process::exit(0) } } }
         if let Some(rest) = r.strip_prefix("quiet ") {
             let t: Vec<&str> = rest.split_whitespace().collect(); let compressed = t[1] == "C"; let seed: u64 = t[2].parse().unwrap(); let rep: u64 = t[3].parse().unwrap();
@@ -433,6 +466,10 @@ pub fn run(a: &Args) {
         if failed == 0 { st.fail("[C08 harness] no read failed in a quiet-spell session".into(), format!("quiet {imp} {} {} {rep}", mode_tag(compressed), a.seed)); }
         st.add("reads failed for lack of traffic (quiet spells)", failed as u64);
     } } }
+    // (b'') a handshake() in mid-session does not disturb what was received before it
+    for compressed in [true, false] { for imp in ["B", "A"] { st.evaluations += 1; st.distinct_nontrivial += 1;
+        if let Some(w) = handshake_mid_case(imp, &rt, compressed) { st.fail(format!("[C08 {}] {w}", if imp == "B" { "blocking" } else { "tokio" }), format!("hsmid {imp} {}", mode_tag(compressed))); }
+        st.bump("handshake() in mid-session over UDP"); } }
     // (c0) writes around a bounced datagram
     for compressed in [true, false] { for imp in ["B", "A"] { for _ in 0..(if a.thorough() { 6 } else { 2 }) {
         st.evaluations += 1; st.distinct_nontrivial += 1;
@@ -466,6 +503,7 @@ pub fn run(a: &Args) {
     st.rule = "real loopback UDP socket pairs, blocking and tokio UdpStream, both modes: (a) the adaptor's read called with scripted slice sizes 1..6120 on datagrams of 1..1500 bytes, chunks compared with the payloads and with the model; (b) Framed sessions over datagrams of 1..n frames (all kinds, keep-alives, undecodable frames), up to 900 frames per session, ended by an empty datagram; (c) every kind written, the peer must receive one datagram per packet equal to its frame; non-trivial = session > 6120 bytes with multi-frame datagrams / adaptor script with datagrams > 255 bytes and slices < 1020".into();
     st.sample("session A C 11 60 1 1  (60 frames mostly >= 200 bytes packed greedily into <= 1020-byte datagrams)".into());
     st.sample("adaptor B 984,984 | 120,...  -> D<120 bytes> ... Z".into());
+    crate::net::report_unconsumed("C08", &mut st);
     out.finish(&st);
 }
 
